@@ -95,6 +95,11 @@ class BrokerState:
             for waiter in sorted(
                 worker_state.collected_waiters, key=lambda x: x.waiter_id
             ):
+                if waiter.resolved_event is not None:
+                    # A resolved waiter needs no requirements any more, and re-queuing
+                    # its step would run it a second time next to the replay that the
+                    # resolution already queued.
+                    continue
                 if waiter.has_requirements and not waiter.requirements:
                     commands.append(
                         TickAddEvent(event=waiter.event, step_name=step_name)
